@@ -359,12 +359,16 @@ def run(repo, res, tier):
     top = protos.message("CommonRoad")
     pw = wmod.classes["ProtobufFileWriter"]
     filled = set()
+    from ..core import canon as _canon
+    from ..dataflow import ReachingDefs as _RD
+
     for mn, fn in pw.methods.items():
+        frd = _RD(fn)
         for n in walk_no_nested(fn):
-            if isinstance(n, ast.Call) and isinstance(n.func, ast.Attribute) and n.func.attr in ("append", "CopyFrom", "extend"):
-                ch = attr_chain(n.func.value)
-                if ch and ch[:2] == ["self", "_commonroad_msg"] and len(ch) == 3:
-                    filled.add(ch[2])
+            if isinstance(n, ast.Call) and isinstance(n.func, ast.Attribute) and n.func.attr in ("append", "CopyFrom", "extend", "add", "MergeFrom"):
+                t = _canon(n.func.value, frd, frd.stmt_of(n), [])
+                if t.startswith("self.commonroad_msg.") and t.count(".") == 2:
+                    filled.add(t.split(".")[2])
     crf = r.factories["CommonRoadFactory"]
     read_top = {fr.field for fr in crf.reads}
     for f in top.order:
